@@ -44,6 +44,10 @@ variant that only serves to state the decidable input class `SegmentAligned`.
   `no_leftover_after_shift` (slash counting: if the pass with the optional leaves something over, the variant
   without it cannot accept either), `gmatchO_eq_expansions` (a one-optional leaf = the first accepting of its
   two registered expansions), `nested_aligned1`, `route_aligned1`, `judge_of_table`.
+* stage 1b — `C14_match_iff_flat_optional_leaves_no_slash`: the same without `SegmentAligned` when the table has no
+  `"/"` static segment (`C14_aligned_without_slash_segments_opt`), and `C14_failure_in_known_class`: on a well-formed
+  table every failing request path has `anyOptParent ∨ anyMultiOpt ∨ anyInnerOptTuple ∨ (a "/" segment ∧
+  ¬SegmentAligned)` — exactly the predicates `classify` files failures under (`C14_classify_sound`).
 * `C14_build_then_match_nested` (nested routes of any depth, one child per level, every version of the code,
   via `seq_build` / `build_nested`) and `C14_build_then_match_table` (whole tables with siblings and base: the
   built path is matched by that definition or an earlier accepting one).
@@ -4030,19 +4034,6 @@ theorem C14_build_then_match_table (d : Defs) (hw : d.wf = true) (hn : noOptiona
 
 /-! # optional-free tables without `"/"` segments: the full statement holds (exactness of `slash-parent`) -/
 
-def notSlash : FSeg → Bool
-  | .st s => decide (s ≠ ['/'])
-  | _ => true
-
-mutual
-/-- no route has a `"/"` static segment -/
-def Route.noSlashSeg : Route → Bool
-  | .mk segs children => segs.gen.all notSlash && noSlashSegList children
-def noSlashSegList : List Route → Bool
-  | [] => true
-  | c :: cs => c.noSlashSeg && noSlashSegList cs
-end
-
 /-- every atom but `"/"` hands on a remainder that starts a new segment -/
 theorem atomSpec_aligned (f : FSeg) (hns : notSlash f = true) (path r : Path) (ps : Params)
     (h : atomSpec f path = some (r, ps)) : Aligned r := by
@@ -5737,6 +5728,227 @@ theorem C14_match_iff_flat_optional_leaves (d : Defs) (path : Path) (hw : d.wf =
       (fun t ht => regRoutes_ok d.base hb t (stage1List_mem d.tops t hs ht))
       (expandedPerDef_eq1 d) _ (route_aligned1 d hb hs _ hp)
 
+
+
+/-! ## stage 1b: without `"/"` segments the router stays on the segment grid, also with optional leaves -/
+
+theorem test_eq_of_rp (k1 k2 : Ver) (s : Seg) (path : Path)
+    (h : (s.test k1 path).rp = (s.test k2 path).rp) : s.test k1 path = s.test k2 path := by
+  cases h1 : s.test k1 path with
+  | panic => rw [h1] at h; cases h2 : s.test k2 path <;> simp [h2, Out.rp] at h ⊢
+  | none => rw [h1] at h; cases h2 : s.test k2 path <;> simp [h2, Out.rp] at h ⊢
+  | some m1 =>
+    rw [h1] at h
+    cases h2 : s.test k2 path with
+    | panic => simp [h2, Out.rp] at h
+    | none => simp [h2, Out.rp] at h
+    | some m2 =>
+      simp [h2, Out.rp] at h
+      have p1 := test_partition k1 s path m1 h1
+      have p2 := test_partition k2 s path m2 h2
+      have : m1.matched = m2.matched := by
+        rw [← p2, h.1] at p1
+        exact List.append_cancel_right p1
+      cases m1; cases m2; simp_all
+
+theorem optSpec_aligned (n : List Char) (path r : Path) (ps : Params) (h : optSpec n path = some (r, ps)) :
+    Aligned r := by
+  cases path with
+  | nil => simp [optSpec] at h; exact Or.inl (by rw [← h.1])
+  | cons c t =>
+    simp only [optSpec] at h
+    split at h
+    · next hc =>
+      subst hc
+      split at h
+      · simp at h; rw [← h.1]; right; simp [startsSlash]
+      · simp at h; rw [← h.1]; exact segTail_aligned t
+    · simp at h
+
+theorem optSeq_cur_eq_aligned : ∀ (F : List FSeg), (∀ f ∈ F, WfAO f) → (∀ f ∈ F, notSlash f = true) →
+    countOptF F ≤ 1 → ∀ path : Path, Aligned path → optSeqRP .cur F path = optSeqRP .aligned F path := by
+  intro F
+  induction F with
+  | nil => intro _ _ _ path _; rfl
+  | cons f F ih =>
+    intro hw hns hc path hp
+    have hw' : ∀ g ∈ F, WfAO g := fun x hx => hw x (by simp [hx])
+    have hns' : ∀ g ∈ F, notSlash g = true := fun x hx => hns x (by simp [hx])
+    cases f with
+    | opt n =>
+      have hF0 : countOptF F = 0 := by simp [countOptF, FSeg.isOpt] at hc; omega
+      have hwa := wfa_of_count0 F hw' hF0
+      have hoa := opt_aligned n path
+      simp only [optSeqRP, atom_cur_eq_aligned (.opt n) path hp, seqRP,
+        seq_cur_eq_aligned F hwa hns' path hp]
+      cases hT : ((toSeg (.opt n)).test .aligned path).rp with
+      | panic => rfl
+      | none => rfl
+      | some x =>
+        obtain ⟨r2, po⟩ := x
+        rw [hT] at hoa
+        cases hsp : optSpec n path with
+        | none => simp [hsp, ofOpt] at hoa
+        | some y =>
+          simp [hsp, ofOpt] at hoa
+          have hal : Aligned r2 := by
+            obtain ⟨ry, py⟩ := y
+            simp at hoa
+            rw [hoa.1]; exact optSpec_aligned n path ry py hsp
+          simp only [seq_cur_eq_aligned F hwa hns' r2 hal]
+    | st s =>
+      have hF : countOptF F ≤ 1 := by simpa [countOptF, FSeg.isOpt] using hc
+      have hwa : WfA (.st s) := wfa_of_wfao (hw _ (by simp)) rfl
+      have hat := atom_aligned (.st s) hwa path
+      simp only [optSeqRP, atom_cur_eq_aligned (.st s) path hp]
+      cases hT : ((toSeg (.st s)).test .aligned path).rp with
+      | panic => rfl
+      | none => rfl
+      | some x =>
+        obtain ⟨r, ps⟩ := x
+        rw [hT] at hat
+        cases hsp : atomSpec (.st s) path with
+        | none => simp [hsp, ofOpt] at hat
+        | some y =>
+          obtain ⟨ry, py⟩ := y
+          simp [hsp, ofOpt] at hat
+          have hal : Aligned r := by rw [hat.1]; exact atomSpec_aligned _ (hns _ (by simp)) path ry py hsp
+          simp only [ih hw' hns' hF r hal]
+    | param s =>
+      have hF : countOptF F ≤ 1 := by simpa [countOptF, FSeg.isOpt] using hc
+      have hwa : WfA (.param s) := wfa_of_wfao (hw _ (by simp)) rfl
+      have hat := atom_aligned (.param s) hwa path
+      simp only [optSeqRP, atom_cur_eq_aligned (.param s) path hp]
+      cases hT : ((toSeg (.param s)).test .aligned path).rp with
+      | panic => rfl
+      | none => rfl
+      | some x =>
+        obtain ⟨r, ps⟩ := x
+        rw [hT] at hat
+        cases hsp : atomSpec (.param s) path with
+        | none => simp [hsp, ofOpt] at hat
+        | some y =>
+          obtain ⟨ry, py⟩ := y
+          simp [hsp, ofOpt] at hat
+          have hal : Aligned r := by rw [hat.1]; exact atomSpec_aligned _ (hns _ (by simp)) path ry py hsp
+          simp only [ih hw' hns' hF r hal]
+    | splat s =>
+      have hF : countOptF F ≤ 1 := by simpa [countOptF, FSeg.isOpt] using hc
+      have hwa : WfA (.splat s) := wfa_of_wfao (hw _ (by simp)) rfl
+      have hat := atom_aligned (.splat s) hwa path
+      simp only [optSeqRP, atom_cur_eq_aligned (.splat s) path hp]
+      cases hT : ((toSeg (.splat s)).test .aligned path).rp with
+      | panic => rfl
+      | none => rfl
+      | some x =>
+        obtain ⟨r, ps⟩ := x
+        rw [hT] at hat
+        cases hsp : atomSpec (.splat s) path with
+        | none => simp [hsp, ofOpt] at hat
+        | some y =>
+          obtain ⟨ry, py⟩ := y
+          simp [hsp, ofOpt] at hat
+          have hal : Aligned r := by rw [hat.1]; exact atomSpec_aligned _ (hns _ (by simp)) path ry py hsp
+          simp only [ih hw' hns' hF r hal]
+
+mutual
+theorem nested_cur_eq_aligned1 : ∀ (r : Route), r.stage1 = true → r.noSlashSeg = true → ∀ (pos : Nat) (path : Path),
+    Aligned path → matchNested .cur r pos path = matchNested .aligned r pos path
+  | .mk segs children, hg, hns, pos, path, hp => by
+    simp only [Route.stage1, Bool.and_eq_true, Bool.not_eq_true', List.all_eq_true, decide_eq_true_eq] at hg
+    obtain ⟨⟨⟨⟨hwf, hin⟩, hcnt⟩, hkind⟩, hch⟩ := hg
+    simp only [Route.noSlashSeg, Bool.and_eq_true, List.all_eq_true] at hns
+    by_cases hce : children.isEmpty = true
+    · have h1 := one_opt_test .cur segs path hin hcnt
+      have h2 := one_opt_test .aligned segs path hin hcnt
+      have heq := test_eq_of_rp .cur .aligned segs path
+        (by rw [h1, h2, optSeq_cur_eq_aligned segs.gen hwf hns.1 hcnt path hp])
+      simp only [matchNested, heq, hce, if_true]
+    · simp only [hce, Bool.false_eq_true, if_false, Bool.and_eq_true, Bool.not_eq_true'] at hkind
+      obtain ⟨hopt, _⟩ := hkind
+      have hwfa : ∀ f ∈ segs.gen, WfA f := fun f hf => wfa_of_wfao (hwf f hf) (gen_noOpt segs hopt f hf)
+      have hseq := seq_cur_eq_aligned segs.gen hwfa hns.1 path hp
+      simp only [matchNested, flatten_test .cur segs path hopt, flatten_test .aligned segs path hopt, hseq]
+      cases hT : seqTest .aligned segs.gen path with
+      | panic => rfl
+      | none => rfl
+      | some pm =>
+        have hal := seqTest_rem_aligned segs.gen hwfa hns.1 path pm hp hT
+        simp only [children_cur_eq_aligned1 children hch hns.2 0 pm.remaining hal, hopt]
+        rfl
+theorem children_cur_eq_aligned1 : ∀ (cs : List Route), stage1List cs = true → noSlashSegList cs = true →
+    ∀ (i : Nat) (path : Path), Aligned path → matchChildren .cur cs i path = matchChildren .aligned cs i path
+  | [], _, _, i, path, _ => by simp [matchChildren]
+  | c :: cs, hg, hns, i, path, hp => by
+    simp only [stage1List, Bool.and_eq_true] at hg
+    simp only [noSlashSegList, Bool.and_eq_true] at hns
+    simp only [matchChildren, nested_cur_eq_aligned1 c hg.1 hns.1 i path hp,
+      children_cur_eq_aligned1 cs hg.2 hns.2 (i + 1) path hp]
+end
+
+/-- no `"/"` segment and outside the optional classes ⇒ always aligned -/
+theorem C14_aligned_without_slash_segments_opt (d : Defs) (hw : d.wf = true) (h1 : anyOptParent d.tops = false)
+    (h2 : anyMultiOpt d.tops = false) (h3 : anyInnerOptTuple d.tops = false)
+    (hns : noSlashSegList d.tops = true) (path : Path) (hp : startsSlash path = true) :
+    SegmentAligned d path := by
+  simp only [Defs.wf, Bool.and_eq_true, Bool.not_eq_true'] at hw
+  obtain ⟨⟨hb, hwl⟩, _⟩ := hw
+  have hs := stage1List_of_classes d.tops hwl h1 h2 h3
+  unfold SegmentAligned matchRoute
+  rw [stripBase_cur_eq_aligned d.base hb path hp]
+  cases hsb : stripBase .aligned d.base path with
+  | none => rfl
+  | some p =>
+    have hal := stripBase_aligned_rem d.base path p hp hsb
+    simp only [children_cur_eq_aligned1 d.tops hs hns 0 p hal]
+
+/-- **match ⇔ flat, tables with optional leaves and without `"/"` segments — unconditional in the path**:
+outside the three optional classes and without a `"/"` static segment in the table, the property holds
+on every request path. -/
+theorem C14_match_iff_flat_optional_leaves_no_slash (d : Defs) (path : Path) (hw : d.wf = true)
+    (hp : startsSlash path = true) (h1 : anyOptParent d.tops = false) (h2 : anyMultiOpt d.tops = false)
+    (h3 : anyInnerOptTuple d.tops = false) (hns : noSlashSegList d.tops = true) : Holds d path :=
+  C14_match_iff_flat_optional_leaves d path hw hp h1 h2 h3
+    (C14_aligned_without_slash_segments_opt d hw h1 h2 h3 hns path hp)
+
+/-- **every failure is in a known-finding class**: a well-formed table and a request path on which the
+property fails has an optional param in a route with children, or two optionals in one route, or an
+optional inside an inner tuple, or — a `"/"` static segment in the table and a path on which the router
+leaves the segment grid.  These are the predicates `classify` files failures under. -/
+theorem C14_failure_in_known_class (d : Defs) (path : Path) (hw : d.wf = true) (hp : startsSlash path = true)
+    (hfail : ¬ Holds d path) :
+    anyOptParent d.tops = true ∨ anyMultiOpt d.tops = true ∨ anyInnerOptTuple d.tops = true ∨
+      (noSlashSegList d.tops = false ∧ ¬ SegmentAligned d path) := by
+  cases h1 : anyOptParent d.tops with
+  | true => exact Or.inl rfl
+  | false =>
+    cases h2 : anyMultiOpt d.tops with
+    | true => exact Or.inr (Or.inl rfl)
+    | false =>
+      cases h3 : anyInnerOptTuple d.tops with
+      | true => exact Or.inr (Or.inr (Or.inl rfl))
+      | false =>
+        refine Or.inr (Or.inr (Or.inr ⟨?_, ?_⟩))
+        · cases hns : noSlashSegList d.tops with
+          | false => rfl
+          | true => exact absurd (C14_match_iff_flat_optional_leaves_no_slash d path hw hp h1 h2 h3 hns) hfail
+        · intro hal
+          exact hfail (C14_match_iff_flat_optional_leaves d path hw hp h1 h2 h3 hal)
+
+
+
+/-- the class `classify` files a failure under is backed by the predicate of that name — the same
+predicates whose negations are the hypotheses of `C14_match_iff_flat_optional_leaves` -/
+theorem C14_classify_sound (d : Defs) (path : Path) (k : Kind) :
+    (classify d path k = .slashParent → noSlashSegList d.tops = false ∧ ¬ SegmentAligned d path) ∧
+    (classify d path k = .optionalParent → anyOptParent d.tops = true) ∧
+    (classify d path k = .optionalBackoffOrder → anyMultiOpt d.tops = true) ∧
+    (classify d path k = .nestedOptionalTuple → anyInnerOptTuple d.tops = true) := by
+  by_cases ha : SegmentAligned d path <;>
+  cases hs : noSlashSegList d.tops <;> cases hp : anyOptParent d.tops <;>
+  cases hm : anyMultiOpt d.tops <;> cases hi : anyInnerOptTuple d.tops <;>
+  cases k <;> simp [classify, ha, hs, hp, hm, hi]
+
 /-! ## non-vacuity: every hypothesis above is satisfiable (and the conclusions are not trivially empty) -/
 
 -- C14_partition: a nested tuple with an optional that is backed off
@@ -5844,5 +6056,14 @@ example : optLeaves.wf = true ∧ anyOptParent optLeaves.tops = false ∧ anyMul
     matchRoute .cur optLeaves ['/', 'b', '/', 'f', '/', 'u', '/', 'v'] =
       .some ⟨[(1, ['/', 'f', '/', 'u', '/', 'v'])], [(['r'], ['u']), (['w'], ['v'])]⟩ ∧
     Holds optLeaves ['/', 'b', '/', 'a', '/', 'x'] := by decide
+
+
+-- C14_match_iff_flat_optional_leaves_no_slash / C14_failure_in_known_class: hypotheses satisfiable, and the
+-- conclusion of the latter is met by each counter-witness in its own class
+example : noSlashSegList optLeaves.tops = true := by decide
+
+example : anyOptParent optParent.tops = true ∧ anyMultiOpt optOrder.tops = true ∧
+    anyInnerOptTuple optInner.tops = true ∧
+    (noSlashSegList slashParent.tops = false ∧ ¬ SegmentAligned slashParent ['/', 'a']) := by decide
 
 end Leptos.Router
